@@ -565,10 +565,20 @@ func c16R6(c *Ctx) {
 	if letter == nil {
 		c.lost("letter branch in readLineOnWindows")
 	}
+	// the flag: the boolean variable tested first thing in the letter branch (identified by role, not by name)
+	flag := ""
+	if li := blockIf(letter); li != nil {
+		if ph, ok := normFact(fact{V: li.Cond, Pol: true}).V.(*ssa.Phi); ok {
+			flag = ph.Comment
+		}
+	}
+	if flag == "" {
+		c.lost("the duplicate flag tested at the start of the letter branch")
+	}
 	n := 0
 	eachInstr(f, func(in ssa.Instruction) {
 		p, ok := in.(*ssa.Phi)
-		if !ok || p.Comment != "mayDuplicate" {
+		if !ok || p.Comment != flag {
 			return
 		}
 		for k, e := range p.Edges {
@@ -586,7 +596,7 @@ func c16R6(c *Ctx) {
 					good = true
 				}
 			}
-			if q, ok := e.(*ssa.Phi); ok && q.Comment == "mayDuplicate" && (letter == q.Block() || letter.Dominates(q.Block())) {
+			if q, ok := e.(*ssa.Phi); ok && q.Comment == flag && (letter == q.Block() || letter.Dominates(q.Block())) {
 				good = true // a merge inside the letter branch, checked on its own edges
 			}
 			c.check(good, "readLineOnWindows/duplicate-flag-consumed", c.pos(pred.Instrs[len(pred.Instrs)-1].Pos()), "after a kept letter the 're-printed character' flag is false",
